@@ -143,7 +143,7 @@ PROPS = {
                 {"module": "MC_C15.tla", "cfg": "MC_C15_twin8.cfg", "expect_violation": True},
                 {"module": "MC_C15.tla", "cfg": "MC_C15_twin9.cfg", "expect_violation": True},
                 {"module": "MC_C15.tla", "cfg": "MC_C15_twin10.cfg", "expect_violation": True},],
-        "expect_ops": ["SetMode", "CalQ", "Add", "SubTP", "Conv"],
+        "expect_ops": ["SetMode", "CalQ", "Add", "SubTP", "Conv", "CliPoint"],
         "rule": "one case = one history (TLC-generated: depth 3-4 over 7 spellings + 4 probes; random: 150-400 steps); a history is "
                 "non-trivial by construction (mode-sensitive probes on recurring years)",
         "exhaustive_part": {"quick": "all 1331 depth-3 behaviours of Lib.tla over 7 spellings + 4 probes", "thorough": "all depth-3 and depth-4 behaviours (15 972)"},
@@ -252,7 +252,8 @@ PROPS = {
                       "shifted by the offsets (exact, then months, then years) rendered in its own notation; for two date-times the printed "
                       "duration d (or --as-total) must satisfy first + d = second on the timeline; a recurrence's printed lines, read back, "
                       "must be the series under the calendar selected by --calendar / ISODATETIMECALENDAR; malformed arguments in every slot must give a non-zero exit with a message and no traceback.",
-        "drivers": ["c19"], "mc": [], "expect_ops": ["CliPoint", "CliDiff", "CliRec", "CliBad"],
+        "drivers": ["c19"],
+        "mc": [{"module": "MC_C15.tla", "cfg": "MC_C19.cfg"}, {"module": "MC_C15.tla", "cfg": "MC_C19_twin1.cfg", "expect_violation": True}], "expect_ops": ["CliPoint", "CliDiff", "CliRec", "CliBad"],
         "rule": "one case = one argument vector; all non-trivial (boundary dates, every notation, offsets of either sign incl. -P spellings)",
         "assumptions": TRUST + ["DurationParser / TimePointParser read back the CLI's own output (validated by C07, C10)"],
     },
